@@ -119,6 +119,9 @@ fn rexpr(r: &mut impl Rng, depth: u32) -> String {
 }
 
 pub fn drive(ctx: &Ctx) -> Summary {
+    if std::env::var("QV_LOUD").is_ok() {
+        let _ = std::panic::take_hook(); // debugging aid: show panic messages of the driver
+    }
     let n = ctx.arg_u64("n", 300);
     let path = ctx.arg_str("out").expect("--out");
     let mut out = std::io::BufWriter::new(std::fs::File::create(path).expect("create trace"));
@@ -142,7 +145,7 @@ pub fn drive(ctx: &Ctx) -> Summary {
             8 => format!("STORE {} {} {}", reg(r), rref(r), operand(r)),
             9 => format!("JUMP-WHEN @t {}", rref(r)),
             10 => format!("JUMP-UNLESS @t {}", rref(r)),
-            11 => format!("DELAY 0 {}", rexpr(r, 3)),
+            11 => format!("DELAY 0 ({})", rexpr(r, 3)),
             12 => format!("SET-PHASE 0 \"x\" {}", rexpr(r, 3)),
             13 => format!("SHIFT-FREQUENCY 0 \"x\" {}", rexpr(r, 3)),
             14 => format!("PULSE 0 \"x\" flat(duration: {}, iq: {})", rexpr(r, 2), rexpr(r, 3)),
@@ -154,7 +157,8 @@ pub fn drive(ctx: &Ctx) -> Summary {
             _ => {
                 // a well-formed call: argument count = parameter count (+ 1 for the return slot)
                 let np = r.gen_range(0..=4);
-                let ret = r.gen_bool(0.5);
+                // (a signature with neither return type nor parameters cannot be declared)
+                let ret = np == 0 || r.gen_bool(0.5);
                 let params: Vec<Value> = (0..np).map(|_| {
                     let ty = *["scalar", "fixed", "var"].choose(r).unwrap();
                     json!({"mut": r.gen_bool(0.5), "ty": ty})
